@@ -225,9 +225,16 @@ func ReadAllWith(rd seqio.Reader, comp *Companion, withQ bool, limit int) (recs 
 func WriteFasta(recs []Rec, q, protein bool, width int) ([]byte, error) {
 	var buf bytes.Buffer
 	w := fasta.NewWriter(&buf, width)
+	var prev seq.Sequence
+	prevKey := ""
 	for i, r := range recs {
 		before := buf.Len()
-		n, err := w.Write(Make(r, q, protein, alphabet.Sanger))
+		obj := prev // a record that equals the one before it: the same object written twice
+		if key := r.String(); prev == nil || key != prevKey {
+			obj, prevKey = Make(r, q, protein, alphabet.Sanger), key
+		}
+		prev = obj
+		n, err := w.Write(obj)
 		if err != nil {
 			return nil, err
 		}
@@ -243,9 +250,17 @@ func WriteFastq(recs []Rec, q bool, enc alphabet.Encoding, qid bool) ([]byte, er
 	var buf bytes.Buffer
 	w := fastq.NewWriter(&buf)
 	w.QID = qid
+	var prev seq.Sequence
+	prevKey := ""
 	for i, r := range recs {
 		before := buf.Len()
-		n, err := w.Write(Make(r, q, false, enc))
+		// a record that equals the one before it is written as the SAME object a second time
+		obj := prev
+		if key := r.String(); prev == nil || key != prevKey {
+			obj, prevKey = Make(r, q, false, enc), key
+		}
+		prev = obj
+		n, err := w.Write(obj)
 		if err != nil {
 			return nil, err
 		}
